@@ -1183,6 +1183,9 @@ enum Family {
     LastGap,
     /// all queries in the gap before the last edit, nothing else; final: sweep only
     LastGapAll,
+    /// queries only in the gap before the FIRST edit (all / every single), i.e. the database has
+    /// been queried, then several edits arrive with no query in between; final: sweep only
+    FirstGap,
     /// the same memo choice (all / one single query) in EVERY gap, including before the first
     /// edit; final: sweep only, or the same single query first
     Uniform,
@@ -1228,6 +1231,16 @@ fn family_vectors(fam: Family, d: usize, ns: usize) -> Vec<(Vec<usize>, usize)> 
             let mut g = vec![0; d];
             g[d - 1] = 1;
             out.push((g, 0));
+        }
+        Family::FirstGap => {
+            // d == 1 would coincide with LastGap
+            if d >= 2 {
+                for m in 1..opts {
+                    let mut g = vec![0; d];
+                    g[0] = m;
+                    out.push((g, 0));
+                }
+            }
         }
         Family::Uniform => {
             for m in 1..opts {
@@ -1367,7 +1380,9 @@ pub fn run(ctx: &Ctx) -> EngineResult {
             (2, Family::PlainFirst, nv),
             (2, Family::LastGap, nv),
             (2, Family::Uniform, nv),
+            (2, Family::FirstGap, nv),
             (3, Family::LastGap, small),
+            (3, Family::FirstGap, small),
         ],
         Tier::Thorough => vec![
             (1, Family::Full, nv),
@@ -1377,7 +1392,9 @@ pub fn run(ctx: &Ctx) -> EngineResult {
             (2, Family::PlainFirst, nv),
             (2, Family::LastGap, nv),
             (2, Family::Uniform, nv),
+            (2, Family::FirstGap, nv),
             (3, Family::LastGap, nv),
+            (3, Family::FirstGap, nv),
             (4, Family::LastGapAll, small),
             (2, Family::UniformX, nv),
             (3, Family::Uniform, nv),
